@@ -7,7 +7,8 @@ from .common import GRID
 vals = st.one_of(st.none(), st.integers(0, 9), st.sampled_from(["a", "b"]))
 delays = st.sampled_from(GRID)
 small = st.integers(0, 7)
-excs = st.tuples(st.sampled_from(["ValueError", "KeyError", "RuntimeError", "HErr", "HErr2", "HBase"]),
+excs = st.tuples(st.sampled_from(["ValueError", "KeyError", "RuntimeError", "HErr", "HErr2", "HBase", "IndexError", "AttributeError",
+                                  "TypeError", "LookupError", "ValueError", "HErr"]),
                  st.lists(st.one_of(st.integers(0, 3), st.sampled_from(["x", "y"])), max_size=2)).map(list)
 
 POLS = ["continue", "rewait", "propagate", "terminate", "raise"]
@@ -48,7 +49,13 @@ def cond_trees(depth=3, max_arity=4, delays=delays):
     t = leaf
     for _ in range(depth):
         t = weighted([(leaf, 3), (extend(t), 1)])
-    return extend(t)
+
+    # operator chains as people write them: a & b & c & d == ((a & b) & c) & d, likewise with |
+    def chain(op):
+        return st.lists(leaf, min_size=3, max_size=5).map(
+            lambda ls: [op, [op, ls[0], ls[1]], ls[2]] if len(ls) == 3 else
+            ([op, [op, [op, ls[0], ls[1]], ls[2]], ls[3]] if len(ls) == 4 else [op, [op, [op, [op, ls[0], ls[1]], ls[2]], ls[3]], ls[4]]))
+    return weighted([(extend(t), 5), (chain("and"), 1), (chain("or"), 1)])
 
 
 def instrs(weights, pol=None, ipol=None, trees=None, delays=delays):
